@@ -28,6 +28,14 @@ def _update_wrapper(engine, st, fr, wrapper, wrapped, node):
     instance attribute of `wrapped` is copied onto `wrapper`, overwriting attributes of the same name."""
     wrapped = engine.resolve(st, wrapped)
     cn = engine.class_of_value(st, wrapped)
+    if cn is None:
+        # the static type is lost when the value comes back from a field typed `any`: ask the solver whether it must be a bound callable
+        try:
+            wv = engine.to_val(st, wrapped)
+            if engine.must(st, cls_of(Val.id(wv)) == engine.tag("BoundCallable")):
+                cn = "BoundCallable"
+        except Exception:
+            pass
     st.trace.append(__import__("pyvc.state", fromlist=["Event"]).Event("update_wrapper", args=[engine.to_val(st, wrapper), engine.to_val(st, wrapped)]))
     if cn is not None and not engine.repo.classes[cn].builtin:
         wid, sid = Val.id(engine.to_val(st, wrapper)), Val.id(engine.to_val(st, wrapped))
@@ -132,6 +140,44 @@ def _post_customize(engine, st, ctx, out):
     return cl
 
 
+# ---- Executors.sync / Executors.thread_pool: the bases of every chain -----------------------------------------------------------------
+def _cfg_factory():
+    cfg = _cfg()
+    cfg.contracts["more_executors._impl.sync.SyncExecutor.__init__"] = RecordCall()
+    cfg.contracts["more_executors._impl.wrapped.CustomizableThreadPoolExecutor.__init__"] = RecordCall()
+    return cfg
+
+
+def _setup_factory(engine, st):
+    a = ArgPack(fresh("args", Val), "args")
+    k = ArgPack(fresh("kwargs", Val), "kwargs")
+    return [Cls("Executors")], {}, {"star": a, "starkw": k, "a": a, "k": k}
+
+
+def _post_factory(cls_name):
+    def post(engine, st, ctx, out):
+        inits = [e for e in st.trace if e.kind == "repo-call" and e.meth.endswith("%s.__init__" % cls_name)]
+        cl = [("exactly one %s is constructed" % cls_name, "PC", z3.BoolVal(len(inits) == 1 and not isinstance(out, Raise)), ["C19", "C01"])]
+        if len(inits) != 1 or isinstance(out, Raise):
+            return cl
+        ev = inits[0]
+        star, sk = ev.star, ev.starkw
+        sk = engine.resolve(st, sk) if sk is not None else None
+        kd = st.objreg.get(engine.concrete_id(sk.t)) if isinstance(sk, Z) and sk.ty == "kwdict" else None
+        same_kw = (isinstance(sk, ArgPack) and sk.t.eq(ctx["k"].t)) or (kd is not None and not kd.known and not kd.removed and kd.base is not None and kd.base.eq(ctx["k"].t))
+        cl.append(("its constructor gets the caller's arguments unchanged (the name given to the base executor reaches it) and the new executor is what is returned", "PC",
+                   z3.And(z3.BoolVal(star is not None and engine.resolve(st, star).t.eq(ctx["a"].t) and bool(same_kw) and len(ev.args) == 1),
+                          engine.to_val(st, out) == ev.args[0] if ev.args else False, cls_of(Val.id(engine.to_val(st, out))) == engine.tag(cls_name)), ["C19", "C01"]))
+        return cl
+    return post
+
+
+UNITS_FACTORY = [
+    Unit("Executors.sync", "executors.Executors.sync", ["C19", "C01"], _setup_factory, _post_factory("SyncExecutor"), cfg=_cfg_factory),
+    Unit("Executors.thread_pool", "executors.Executors.thread_pool", ["C19", "C01"], _setup_factory, _post_factory("CustomizableThreadPoolExecutor"), cfg=_cfg_factory),
+]
+
+
 # ---- CanCustomize.with_* : name propagation + dispatch -----------------------------------------------------------
 def _cfg_with():
     cfg = _cfg()
@@ -221,8 +267,8 @@ UNITS = [
 ]
 for m in sorted(WITH):
     UNITS.append(Unit("CanCustomize.%s[executor]" % m, "wrap.CanCustomize." + m, ["C19", "C01"], _setup_with(m, "MapExecutor"), _post_with, cfg=_cfg_with, self_cls="MapExecutor"))
-    UNITS.append(Unit("CanCustomize.%s[bound callable]" % m, "wrap.CanCustomize." + m, ["C19"], _setup_with(m, "bound"), _post_with, cfg=_cfg_with, self_cls="BoundCallable"))
-UNITS.append(Unit("CanCustomize.with_map[thread pool]", "wrap.CanCustomize.with_map", ["C19"], _setup_with("with_map", "CustomizableThreadPoolExecutor"), _post_with,
+    UNITS.append(Unit("CanCustomize.%s[bound callable]" % m, "wrap.CanCustomize." + m, ["C19", "C01"], _setup_with(m, "bound"), _post_with, cfg=_cfg_with, self_cls="BoundCallable"))
+UNITS.append(Unit("CanCustomize.with_map[thread pool]", "wrap.CanCustomize.with_map", ["C19", "C01"], _setup_with("with_map", "CustomizableThreadPoolExecutor"), _post_with,
                   cfg=_cfg_with, self_cls="CustomizableThreadPoolExecutor"))
 UNITS.append(Unit("CanCustomize.with_retry[name given]", "wrap.CanCustomize.with_retry", ["C19"], _setup_with_named("with_retry"), _post_with_named,
                   cfg=_cfg_with, self_cls="MapExecutor"))
@@ -258,3 +304,45 @@ def _post_canbind(which):
 
 UNITS += [Unit("CanBind.bind", "wrap.CanBind.bind", ["C19"], _setup_canbind, _post_canbind("bind"), cfg=_cfg_canbind, self_cls="MapExecutor"),
           Unit("CanBind.flat_bind", "wrap.CanBind.flat_bind", ["C19"], _setup_canbind, _post_canbind("flat_bind"), cfg=_cfg_canbind, self_cls="MapExecutor")]
+
+UNITS += UNITS_FACTORY
+
+
+# ---- futures.base.wrap(f): the bridge from a future to the executor chain (f_map, f_flat_map, f_apply are built on it) ----------
+def _cfg_wrap():
+    cfg = _cfg()
+
+    def internal_executor(engine, st):
+        t = ref(700000 + STRINGS.get("EXECUTOR"))
+        return Z(t, "executor")
+    cfg.global_types[("more_executors._impl.futures.base", "EXECUTOR")] = internal_executor
+    return cfg
+
+
+def _setup_wrap(engine, st):
+    f = sym_val(engine, st, "any", "f")
+    return [f], {}, {"f": f}
+
+
+def _post_wrap(engine, st, ctx, out):
+    calls = [e for e in st.trace if e.kind == "call" and e.meth == "flat_bind"]
+    cl = [("wrap(f) is ONE flat_bind on the internal executor", "PC", z3.BoolVal(len(calls) == 1 and len(calls[0].args) == 1 and not calls[0].kwargs) if calls else z3.BoolVal(False), ["C13", "C16", "C19"])]
+    if len(calls) != 1 or len(calls[0].args) != 1:
+        return cl
+    ev = calls[0]
+    cl.append(("... on the library's internal executor, and its answer is what wrap returns", "PC",
+               z3.And(ev.recv == 700000 + STRINGS.get("EXECUTOR"), ((engine.to_val(st, out) == ev.ret) if (not isinstance(out, Raise) and ev.ret is not None) else
+                       ((engine.to_val(st, out.exc) == ev.exc) if (isinstance(out, Raise) and ev.exc is not None) else z3.BoolVal(False)))), ["C13", "C16", "C19"]))
+    fnv = engine.resolve(st, Z(ev.args[0], None))
+    from pyvc.symexec import Frame
+    frx = Frame(None, engine.repo.func("futures.base.wrap").module, st.new_env(None), None, 0)
+    n = 0
+    for s2, r2 in engine.call(st.copy(), frx, fnv, [], {}, None, None, None):
+        n += 1
+        cl.append(("the function bound is one that, called with no arguments, returns the very future given (so that flat_bind flattens INTO f: the chain's "
+                   "input is f's own outcome)", "PC", (engine.to_val(s2, r2) == ctx["f"].t) if not isinstance(r2, Raise) else z3.BoolVal(False), ["C13", "C16", "C19"], s2))
+    cl.append(("the bound function is total (one outcome)", "PC", z3.BoolVal(n == 1), ["C13", "C16", "C19"]))
+    return cl
+
+
+UNITS.append(Unit("futures.base.wrap", "futures.base.wrap", ["C13", "C16", "C19"], _setup_wrap, _post_wrap, cfg=_cfg_wrap))
